@@ -67,12 +67,12 @@ func (im indexManager) Dispatch(
 				// Listen to errors on the drain function, if an index fails we
 				// abort the entire operation
 				wg.Add(1)
-				go func() {
+				utils.GoWithContext(ctx, func() {
 					if err := <-drainErrC; err != nil {
 						cancel(err)
 					}
 					wg.Done()
-				}()
+				})
 			}
 			// ---------------------------
 			// Submit job to the queue
@@ -85,7 +85,7 @@ func (im indexManager) Dispatch(
 		return nil
 	})
 	// ---------------------------
-	go func() {
+	utils.GoWithContext(ctx, func() {
 		// Go function to close index queues when the dispatching finishes
 		if err := <-distributeSinkErrC; err != nil {
 			cancel(err)
@@ -95,16 +95,16 @@ func (im indexManager) Dispatch(
 			close(queue)
 		}
 		wg.Done()
-	}()
+	})
 	// ---------------------------
 	dispatchErrC := make(chan error, 1)
-	go func() {
+	utils.GoWithContext(ctx, func() {
 		// Wait for all the drain functions and distribute sink to finish
 		wg.Wait()
 		// Did we succeed or fail?
 		dispatchErrC <- context.Cause(ctx)
 		close(dispatchErrC)
-	}()
+	})
 	// ---------------------------
 	return dispatchErrC
 }
@@ -129,7 +129,7 @@ func (im indexManager) getDrainFn(bucketName string, params models.IndexSchemaVa
 			newVamanaFn := func() (cache.Cachable, error) {
 				return vamana.NewIndexVamana(cacheName, *params.VectorVamana, bucket)
 			}
-			go func() {
+			utils.GoWithContext(ctx, func() {
 				writeErrC <- im.cx.With(cacheName, false, newVamanaFn, func(cached cache.Cachable) error {
 					vamanaIndex := cached.(*vamana.IndexVamana)
 					/* This update bucket business shouldn't cause a discrepancy
@@ -145,7 +145,7 @@ func (im indexManager) getDrainFn(bucketName string, params models.IndexSchemaVa
 					return <-vamanaIndex.InsertUpdateDelete(ctx, out)
 				})
 				close(writeErrC)
-			}()
+			})
 			return utils.MergeErrorsWithContext(ctx, transformErrC, writeErrC)
 		}
 		// ---------------------------
@@ -156,13 +156,13 @@ func (im indexManager) getDrainFn(bucketName string, params models.IndexSchemaVa
 			newFlatFn := func() (cache.Cachable, error) {
 				return flat.NewIndexFlat(*params.VectorFlat, bucket)
 			}
-			go func() {
+			utils.GoWithContext(ctx, func() {
 				writeErrC <- im.cx.With(cacheName, false, newFlatFn, func(cached cache.Cachable) error {
 					flatIndex := cached.(flat.IndexFlat)
 					flatIndex.UpdateBucket(bucket)
 					return <-flatIndex.InsertUpdateDelete(ctx, out)
 				})
-			}()
+			})
 			return utils.MergeErrorsWithContext(ctx, transformErrC, writeErrC)
 		}
 	case models.IndexTypeText:
